@@ -48,8 +48,12 @@ def _worker_init(backend, scratch):
 def _pytrial(i, x):
   from vizier import pyvizier as vz
   t = vz.Trial(id=i, parameters={'x': 0.25 * i}, is_requested=(x == 'REQUESTED'))
-  if x == 'STOPPING':
+  if x == 'STOPPING' or (x in ('SUCCEEDED', 'INFEASIBLE') and i == 2):
+    # the second trial, when completed, was asked to stop first (STOPPING -> SUCCEEDED / INFEASIBLE of the model): the
+    # stopping reason stays on the completed object
     t.stopping_reason = 'asked to stop'
+  if x == 'STOPPING':
+    pass
   elif x == 'SUCCEEDED':
     t.complete(vz.Measurement(metrics={'m': float(i)}))
   elif x == 'INFEASIBLE':
@@ -105,7 +109,12 @@ def _store_chunk(items):
     ram = None
     if contiguous:
       ram = local_policy_supporters.InRamPolicySupporter(_problem())
-      ram.AddTrials([_pytrial(i, x) for i, x in present])
+      # odd completed trials take the model's ACTIVE -> SUCCEEDED / INFEASIBLE step the way PolicySuggester documents it: the
+      # trial is added ACTIVE, evaluated on a copy, and the completed copy is handed back under the same id
+      later = [(i, x) for i, x in present if x in ('SUCCEEDED', 'INFEASIBLE') and i % 2 == 1]
+      ram.AddTrials([_pytrial(i, 'ACTIVE' if (i, x) in later else x) for i, x in present])
+      if later:
+        ram.AddTrials([_pytrial(i, x) for i, x in later])
     for q, ans in queries:
       ids, lo, hi, status = _opt(q['ids']), _opt(q['min']), _opt(q['max']), _opt(q['status'])
       stat = None if status is None else [status_of[s] for s in status]
